@@ -43,7 +43,8 @@ def make_cs(prio):
 def budget(tier):
     q = tier == "quick"
     return [{"workers": 16, "examples": 200 if q else 5000},
-            {"part": "starve", "workers": 16, "examples": 25 if q else 800}]
+            {"part": "starve", "workers": 16, "examples": 25 if q else 800},
+            {"part": "renotify", "workers": 16, "examples": 40 if q else 1500}]
 
 
 def gen(d, tier):
@@ -77,6 +78,8 @@ def _strict(world):
 
 
 def in_domain(trace):
+    if "/f" in [a[3] for a in trace["acts"] if a[0] == "u" and a[2] == "create"][:1] and "aging" in trace["cfg"] and "/g" in str(trace["acts"][:2]):
+        return True         # 'renotify' scenarios are hand-shaped: any sub-sequence is in their domain
     if max(trace["cfg"].get("prio", {"x": 0}).values()) > 0 and any(a[0] == "u" and a[2] == "rmtree" for a in trace["acts"]):
         return False
     acts = [a for a in trace["acts"] if a[0] != "clock"]
@@ -252,4 +255,30 @@ def run_starve(trace):
         case.close()
 
 
-PARTS = {"starve": (gen_starve, run_starve)}
+# ----------------------------------------------------------------------------- repeated notifications for one object
+def gen_renotify(d, tier):
+    """One settled file is overwritten k times with gaps shorter than the ageing interval, each overwrite is taken in
+    by the event manager before the next; then the clock advances in small steps.  Oracle B (in Run) demands that
+    nothing is propagated before (last notification + ageing)."""
+    L, R = d.choice(FLAVOURS)
+    origin = d.int(0, 1)
+    aging = d.choice((0.5, 2, 10))
+    cfg = {"L": L, "R": R, "salt": d.int(0, 7), "origin": origin, "aging": aging, "prio": {"f": d.choice((0, 0, 1))}}
+    ev = "EL" if origin == 0 else "ER"
+    acts = [["u", origin, "create", "/f", "w0"], ["u", origin, "create", "/g", "g0"], ["settle"], ["clock", aging * 3], ["settle"]]
+    for i in range(d.int(2, 4)):
+        acts.append(["u", origin, "write", "/f", "w%d" % (i + 1)])
+        acts.append(["step", ev])
+        if d.bool():
+            acts.append(["step", "S"])
+        acts.append(["clock", aging * d.choice((0.1, 0.3, 0.6, 0.9))])
+        if d.bool():
+            acts.append(["step", "S"])
+    for _ in range(d.int(2, 8)):
+        acts.append(["clock", aging * d.choice((0.05, 0.2, 0.5))])
+        acts.append(["step", d.choice(("S", "S", "EL", "ER"))])
+    acts.append(["settle"])
+    return {"cfg": cfg, "acts": acts}
+
+
+PARTS = {"starve": (gen_starve, run_starve), "renotify": (gen_renotify, run)}
